@@ -2161,3 +2161,112 @@ Example C01_eq_file_rel_two_slashes_nonvacuous :
   | _, _ => False
   end.
 Proof. exact class_file_rel2_nonvacuous. Qed.
+
+(* ====================================================================================== *)
+(* appended block (task c09last): the *_model theorems for the REAL idna oracle            *)
+(* ====================================================================================== *)
+(* The *_model theorems above are stated relative to IdnaOK idna, which is FALSE of the real idna crate (finding F-C10-1:
+   its outputs inside Known_C10_long are no fixed points) - as stated they say nothing about the real crate.  Their proofs
+   use the first clause of IdnaOK only (IdnaOut: every oracle output is ASCII outside the regenerated deny list), because
+   model and Standard ask the SAME oracle once for the same host text.  Restated with that clause alone; IdnaOK2 (C09: the
+   hypothesis that holds of the crate, derived for the uts46 model in C09_IdnaOK2_uts46) implies it, and no premise about
+   the class Known_C10_long is needed: C01 is not affected by F-C10-1. *)
+From RU Require Import Proofs.C09_Long Proofs.C09_RealC01.
+
+Check (eq_refl : IdnaOut = fun idna => forall bs d, idna bs = Some d -> Forall dom_char_ok d).
+
+Theorem C01_IdnaOut : forall idna, (IdnaOK2 idna -> IdnaOut idna) /\ (IdnaOK idna -> IdnaOut idna).
+Proof. exact (fun idna => conj (IdnaOK2_out idna) (IdnaOK_out idna)). Qed.
+Print Assumptions C01_IdnaOut.
+
+Theorem C01_statement_all2_real : forall dbg idna, IdnaOut idna -> forall input base sbase,
+  usv_list input -> full_rel dbg spec_host_serializer base sbase -> known_c01 base input = 0 ->
+  agree_good dbg spec_host_serializer
+    (parse_url dbg (host_parse idna) host_parse_opaque host_display None base input)
+    (spec_basic_url_parse (spec_host_parser idna) input sbase)
+  /\ (forall su u, spec_basic_url_parse (spec_host_parser idna) input sbase = BDone su ->
+        parse_url dbg (host_parse idna) host_parse_opaque host_display None base input = POk u ->
+        full_base dbg spec_host_serializer u su).
+Proof. exact statement_all4_out. Qed.
+Check C01_statement_all2_real : forall dbg idna, IdnaOut idna -> forall input base sbase,
+  usv_list input ->
+  match base, sbase with
+  | None, None => True
+  | Some b, Some sb => (related dbg spec_host_serializer b sb /\ spec_base_ok sb = true) /\ base_shape_ok sb = true
+  | _, _ => False
+  end ->
+  known_c01 base input = 0 ->
+  let m := parse_url dbg (host_parse idna) host_parse_opaque host_display None base input in
+  match spec_basic_url_parse (spec_host_parser idna) input sbase with
+  | BDone su => spec_base_ok su = true
+                /\ ((m = PErr Overflow /\ U32_MAX_P < nlen (get_href spec_host_serializer su))
+                    \/ exists u, m = POk u /\ related dbg spec_host_serializer u su)
+  | BFailure _ => exists e, m = PErr e
+  | BOutOfFuel => False
+  end
+  /\ (forall su u, spec_basic_url_parse (spec_host_parser idna) input sbase = BDone su -> m = POk u ->
+        (related dbg spec_host_serializer u su /\ spec_base_ok su = true) /\ base_shape_ok su = true).
+Print Assumptions C01_statement_all2_real.
+
+(* the form with the hypothesis of C09 that holds of the real crate *)
+Theorem C01_statement_all2_real_IdnaOK2 : forall dbg idna, IdnaOK2 idna -> forall input base sbase,
+  usv_list input -> full_rel dbg spec_host_serializer base sbase -> known_c01 base input = 0 ->
+  agree_good dbg spec_host_serializer
+    (parse_url dbg (host_parse idna) host_parse_opaque host_display None base input)
+    (spec_basic_url_parse (spec_host_parser idna) input sbase)
+  /\ (forall su u, spec_basic_url_parse (spec_host_parser idna) input sbase = BDone su ->
+        parse_url dbg (host_parse idna) host_parse_opaque host_display None base input = POk u ->
+        full_base dbg spec_host_serializer u su).
+Proof. exact (fun dbg idna OK => statement_all4_out dbg idna (IdnaOK2_out idna OK)). Qed.
+Print Assumptions C01_statement_all2_real_IdnaOK2.
+
+Theorem C01_statement_all2_real_utf8 : forall dbg idna, IdnaOut idna -> forall input base sbase,
+  usv_list input -> full_rel dbg spec_host_serializer base sbase -> known_c01 base input = 0 ->
+  agree_good dbg spec_host_serializer
+    (parse_url dbg (host_parse idna) host_parse_opaque host_display (Some utf8_encode) base input)
+    (spec_basic_url_parse (spec_host_parser idna) input sbase).
+Proof. exact statement_all4_out_utf8. Qed.
+Print Assumptions C01_statement_all2_real_utf8.
+
+Theorem C01_statement_instance2_real : forall dbg idna, IdnaOut idna -> forall input base sbase,
+  usv_list input -> full_rel dbg spec_host_serializer base sbase -> known_c01 base input = 0 ->
+  statement_shape dbg spec_host_serializer
+    (parse_url dbg (host_parse idna) host_parse_opaque host_display None base input)
+    (spec_basic_url_parse (spec_host_parser idna) input sbase).
+Proof. exact statement_instance4_out. Qed.
+Print Assumptions C01_statement_instance2_real.
+
+Theorem C01_statement_file_two_slashes_real : forall dbg idna, IdnaOut idna -> forall input base sbase,
+  usv_list input -> full_rel dbg spec_host_serializer base sbase ->
+  in_class_file input = true -> two_sl_file input = true ->
+  agree_good dbg spec_host_serializer
+    (parse_url dbg (host_parse idna) host_parse_opaque host_display None base input)
+    (spec_basic_url_parse (spec_host_parser idna) input sbase)
+  /\ (forall su u, spec_basic_url_parse (spec_host_parser idna) input sbase = BDone su ->
+        parse_url dbg (host_parse idna) host_parse_opaque host_display None base input = POk u ->
+        full_base dbg spec_host_serializer u su).
+Proof. exact class_file_two_out. Qed.
+Print Assumptions C01_statement_file_two_slashes_real.
+
+Theorem C01_statement_file_rel_two_slashes_real : forall dbg idna, IdnaOut idna -> forall input b sb,
+  usv_list input -> related dbg spec_host_serializer b sb -> in_class_file_rel2 sb input = true ->
+  agree_good dbg spec_host_serializer
+    (parse_url dbg (host_parse idna) host_parse_opaque host_display None (Some b) input)
+    (spec_basic_url_parse (spec_host_parser idna) input (Some sb))
+  /\ (forall su u, spec_basic_url_parse (spec_host_parser idna) input (Some sb) = BDone su ->
+        parse_url dbg (host_parse idna) host_parse_opaque host_display None (Some b) input = POk u ->
+        full_base dbg spec_host_serializer u su).
+Proof. exact class_file_rel2_out. Qed.
+Print Assumptions C01_statement_file_rel_two_slashes_real.
+
+(* non-vacuity: the stand-in oracle idna_long of C09 satisfies IdnaOK2 - hence IdnaOut - and NOT IdnaOK; on http://x/, whose
+   host it answers INSIDE the class Known_C10_long, model and Standard agree (the same 2005-character host on both sides) *)
+Example C01_statement_all2_real_nonvacuous :
+  IdnaOut idna_long
+  /\ known_c01 None [104;116;116;112;58;47;47;120;47] = 0
+  /\ match parse_url true (host_parse idna_long) host_parse_opaque host_display None None [104;116;116;112;58;47;47;120;47],
+           spec_basic_url_parse (spec_host_parser idna_long) [104;116;116;112;58;47;47;120;47] None with
+     | POk u, BDone su => api_of_model true u = Some (spec_api_list spec_host_serializer su)
+                          /\ Nat.ltb 2000 (length (ser u)) = true
+     | _, _ => False end.
+Proof. split; [exact (IdnaOK2_out idna_long idna_long_ok2)|]. vm_compute. repeat split; reflexivity. Qed.
